@@ -2,6 +2,7 @@ import OrsoVerif.Model.PyVal
 import OrsoVerif.Model.GroupBy
 import OrsoVerif.Model.GroupByCode
 import OrsoVerif.Model.GroupByX
+import OrsoVerif.Model.GroupByEq
 /-! Driver glue for C12: decode a frame, key columns and requests; run the model; encode. -/
 namespace Drv.C12
 open GroupBy
@@ -42,6 +43,14 @@ def supportedX (fr : Frame) (reqs : List Req) : Bool :=
         match r.getD i .none with
         | .none => true
         | v => (xnum v).isSome
+
+/-- Keys compared by Python's `==`: every cell of a key column must be a value the model of `==`
+speaks about (null, boolean, integer, a float that is not a NaN, text). -/
+def supportedKeys (fr : Frame) (keyCols : List String) : Bool :=
+  keyCols.all fun c =>
+    match index c fr.columns with
+    | none => true
+    | some i => fr.rows.all fun r => keyValueOk (r.getD i .none)
 
 def decodeOp : PyVal → Option Op
   | .list [.str "groups"] => some .groups
@@ -90,6 +99,20 @@ def handle (op : String) (args : List PyVal) : Option (List PyVal) :=
     let reqs ← reqs.mapM decodeReq
     let fr : Frame := { columns := cols, rows := rows }
     if supportedX fr reqs then pure (encode (runX fr keyCols reqs)) else none
+  | "aggregate_eq", [.list cols, .list rows, .list keyCols, .list reqs] => do
+    -- keys compared by Python's `==` (`1 == 1.0 == True`): Model/GroupByEq.lean
+    let cols ← cols.mapM decodeStr
+    let rows ← rows.mapM (decodeRow cols.length)
+    let keyCols ← keyCols.mapM decodeStr
+    let reqs ← reqs.mapM decodeReq
+    let fr : Frame := { columns := cols, rows := rows }
+    if supported fr reqs && supportedKeys fr keyCols then pure (encode (runEq fr keyCols reqs)) else none
+  | "groups_eq", [.list cols, .list rows, .list keyCols] => do
+    let cols ← cols.mapM decodeStr
+    let rows ← rows.mapM (decodeRow cols.length)
+    let keyCols ← keyCols.mapM decodeStr
+    let fr : Frame := { columns := cols, rows := rows }
+    if supportedKeys fr keyCols then pure (encode (runGroupsEq fr keyCols)) else none
   | "groups", [.list cols, .list rows, .list keyCols] => do
     let cols ← cols.mapM decodeStr
     let rows ← rows.mapM (decodeRow cols.length)
@@ -123,6 +146,26 @@ def handle (op : String) (args : List PyVal) : Option (List PyVal) :=
     let fr : Frame := { columns := cols, rows := rows }
     if calls.all (fun c => opSupportedC fr c.2) then
       pure [.list ((GroupByCode.runCallsF GroupByCode.source fr lazy objs idxs calls).map fun r =>
+        match r with
+        | .error c => .list [.str "err", .str c]
+        | .ok hr => encodeTable hr)]
+    else none
+  | "code_calls_eq", [.list cols, .list rows, .bool lazy, .list objs, .list calls] => do
+    -- the same program, dictionaries looked up as Python's `==` and `hash` see the keys (`identKeyOf`)
+    let cols ← cols.mapM decodeStr
+    let rows ← rows.mapM (decodeRow cols.length)
+    let objs ← objs.mapM fun o => match o with
+      | .list ks => ks.mapM decodeStr
+      | _ => none
+    let idxs ← objs.mapM fun ks => ks.mapM fun k => index k cols
+    let calls ← calls.mapM fun c => match c with
+      | .list [.int g, op] => do
+        let op ← decodeOp op
+        if 0 ≤ g ∧ g.toNat < objs.length then pure (g.toNat, op) else none
+      | _ => none
+    let fr : Frame := { columns := cols, rows := rows }
+    if calls.all (fun c => opSupportedC fr c.2) && objs.all (supportedKeys fr) then
+      pure [.list ((GroupByCode.runCallsEqF GroupByCode.source fr lazy objs idxs calls).map fun r =>
         match r with
         | .error c => .list [.str "err", .str c]
         | .ok hr => encodeTable hr)]
